@@ -423,6 +423,24 @@ def rules(ctx: Ctx) -> None:
     # report the tables of an earlier SELECT for a later one
     _imp01(ctx, "C05", {"R05.3": "R01.12"}, key_filter=lambda o: o.key.startswith(("analyzer-state", "per-query-object")))
 
+    # ---- R01.14 nothing that was discovered is dropped because it shares a label with something else: iterating the `.values()` of a dictionary keyed
+    # by a PART of its values (`{sq.alias: sq for sq in subqueries}.values()`) keeps one element per key - derived tables with the same alias in
+    # different UNION branches are then one sub-query and the tables of the others are lost.  (A dictionary used for look-up by name is fine.)
+    n_proj = 0
+    for f in prog.funcs.values():
+        if not f.mod.name.startswith("sqllineage.core"):
+            continue
+        for k in prog.walk_fn(f):
+            if not (isinstance(k, ast.Call) and isinstance(k.func, ast.Attribute) and k.func.attr == "values" and not k.args):
+                continue
+            for v in [k.func.value] + list(prog.value_sources(f, k.func.value)):
+                if isinstance(v, ast.DictComp) and len(v.generators) == 1 and isinstance(v.generators[0].target, ast.Name) and isinstance(v.value, ast.Name) and v.value.id == v.generators[0].target.id \
+                        and any(isinstance(x, ast.Attribute) and isinstance(x.value, ast.Name) and x.value.id == v.value.id for x in ast.walk(v.key)) and not (isinstance(v.key, ast.Name)):
+                    n_proj += 1
+                    ctx.ob("R01.14", f"no-dedupe-by-a-part-of-the-element:{f.owner}:{u(v.key)[:30]}", False, loc(f.mod, v),
+                           f"`{u(v)[:70]}`.values(): elements that agree on `{u(v.key)}` collapse into the last one")
+    ctx.ob("R01.14", "no-dedupe-by-a-part-of-the-element:scanned", True, "sqllineage/core", f"{n_proj} projection-keyed dictionaries iterated by value", trivial=True)
+
     # ---- R01.13 what the discovery routines find is registered as found: a loop over the tables of a FROM / JOIN clause calls add_read on every
     # path through its body (a filter between discovery and registration - "the target listed again is not a source" - loses a table the
     # statement reads)
